@@ -48,7 +48,21 @@ reported only once closed). Oracle: V0, V1(, V2) once and in order; no token of 
 opening delimiter (`<!`, `<?`, `<script` ...) as literal text. Formats: html, msgbody, epub, mhtml-qp (quick), also
 msgfrag, mhtml-7bit, mhtml-b64 (thorough).
 
-Bounds (quick / thorough): seq L = 3 / 5 (html), 2 / 3 (wrappers), Lc = 2 / 3; cm: slot contents of length <= 1 for all
+Family "shell" (document-shell tags inside removed markup, {"fam": "shell", "r", "seq"[, "shape", "enc", "hdr", "eol",
+"root"]}): the multi-line page  V0 V1 <removed> V2 V3  of family "wrap"; the removed construct (comment, script, style,
+noscript, iframe, object, applet) holds every sequence over the SHELL alphabet OMEGA: token, newline, `<html>`, `</html>`,
+`<body>`, `</body>`, `</head>` - an inline fallback document, a saved copy of a page in a comment, a script that writes a
+page. Tags of the document shell inside removed markup are content of that markup: they must not end (or restart) the
+document for the parser, nor for any code that locates "the HTML document" in its container by looking for these tags.
+Formats: html, msgbody, and mhtml-tree over the containers of c17_wrap x ROOTS, the media type the root part is labelled
+with: text/html, Text/HTML (media types are case-insensitive) and application/xhtml+xml (RFC 2557 lets the root of a
+multipart/related have any type; the page then carries the XHTML namespace). Roots that are not text/html are generated
+with the identity transfer encodings only (7bit, none) - see assumptions.
+
+Bounds (quick / thorough): shell: html length <= 3 / 4, msgbody <= 2 / 3; mhtml-tree: length <= 1 / 2 for all 240
+containers (6 shapes x 10 (root, encoding) pairs x 2 header orders x 2 line terminators), length 2 / 3 for the 18 containers
+with CRLF, Content-Type first and (root, encoding) in (text/html, 7bit), (text/html, quoted-printable),
+(application/xhtml+xml, 7bit); seq L = 3 / 5 (html), 2 / 3 (wrappers), Lc = 2 / 3; cm: slot contents of length <= 1 for all
 39 x 39 slot pairs x 3 layouts, comment-comment pairs of total length <= 3 / 4 (layout blk), office frame for total
 length <= 2 / 3; wrap: all 96 containers x 5 constructs x sequences of length <= 1 / 3, plus length 2 for the 24
 containers with CRLF and Content-Type first (quick); eof: all 11 openers x 2 tails x contents of length <= 1 / 2 for the
@@ -99,6 +113,11 @@ _EOF_MARKUP = re.compile(r"<!|<\?|--!?>|<script|<style|<noscript|<iframe|<object
 LAMBDA = ["\n", "T", "--", "--b", "H", "E", "L"]
 LAMBDA_TEXT = {"--b": "--=_b", "H": "Content-Type: text/html", "E": "Content-Transfer-Encoding: base64"}
 WRAP_R = ["cm", "script", "style", "noscript", "object"]
+# family "shell": tags of the document shell inside the removed construct; media types of the MHTML root part
+OMEGA = ["T", "\n", "<html>", "</html>", "<body>", "</body>", "</head>"]
+SHELL_R = ["cm", "script", "style", "noscript", "iframe", "object", "applet"]
+ROOTS = ["text/html", "Text/HTML", "application/xhtml+xml"]
+SHELL_DEEP = [("text/html", "7bit"), ("text/html", "quoted-printable"), ("application/xhtml+xml", "7bit")]
 
 
 def nested_names(r):
@@ -487,8 +506,36 @@ def render_wrap(case, tk: Tokens):
     return page, v, hidden
 
 
+def render_shell(case, tk: Tokens):
+    """Family "shell": the multi-line page of family "wrap"; the removed construct holds document-shell tags."""
+    v = [tk.new("B") for _ in range(4)]
+    hidden = []
+    parts = []
+    for s in case["seq"]:
+        if s == "T":
+            t = tk.new("X"); hidden.append(t)
+            parts.append(t)
+        else:
+            parts.append(s)
+    c = "".join(parts)
+    r = case["r"]
+    k = f"<!--{c}-->" if r == "cm" else f"<{r}>{c}</{r}>"
+    ns = ' xmlns="http://www.w3.org/1999/xhtml"' if "xhtml" in case.get("root", "") else ""
+    page = (f'<!DOCTYPE html>\n<html{ns}>\n<head>\n<meta charset="utf-8">\n</head>\n<body>\n'
+            f"<p>{v[0]}</p>\n<p>{v[1]}</p>\n{k}\n<p>{v[2]}</p>\n<p>{v[3]}</p>\n</body>\n</html>\n")
+    return page, v, hidden
+
+
+def shell_roots():
+    """(root media type, transfer encoding) pairs of family "shell"."""
+    for root in ROOTS:
+        for enc in W.ENCS:
+            if root.lower() == "text/html" or enc in ("7bit", "none"):
+                yield root, enc
+
+
 def container_of(case):
-    return {d: case[d] for d in ("shape", "enc", "hdr", "eol")}
+    return {d: case[d] for d in ("shape", "enc", "hdr", "eol", "root") if d in case}
 
 
 def render_case(fmt, case, tk):
@@ -498,6 +545,8 @@ def render_case(fmt, case, tk):
         return render_cm(case, tk, xhtml=(fmt == "epub"))
     if fam == "wrap":
         return render_wrap(case, tk)
+    if fam == "shell":
+        return render_shell(case, tk)
     if fam == "eof":
         return render_eof(case, tk, xhtml=(fmt == "epub"), frag=(fmt == "msgfrag"))
     body, visible, hidden = render_body(case, tk, xhtml=(fmt == "epub"))
@@ -514,7 +563,7 @@ def evaluate(fmt, case, seed=0):
     tk = Tokens(seed)
     body, visible, hidden = render_case(fmt, case, tk)
     try:
-        text = extract_page(fmt, body, container_of(case) if case.get("fam") == "wrap" else None)
+        text = extract_page(fmt, body, container_of(case) if fmt == "mhtml-tree" else None)
     except Exception as e:  # noqa
         return [("raises", f"{type(e).__name__}: {e}")], None
     found = find_tokens(text)
@@ -606,6 +655,19 @@ def shrinks(case):
                 c[key] = dflt
                 yield c
         return
+    if fam == "shell":
+        seq = case["seq"]
+        for i in range(len(seq)):
+            c = dict(case)
+            c["seq"] = seq[:i] + seq[i + 1:]
+            yield c
+        for key, dflt in [("root", ROOTS[0])] + list(W.DEFAULT.items()) + [("r", "cm")]:
+            if key in case and case[key] != dflt:
+                c = dict(case)
+                c[key] = dflt
+                if (c.get("root", ROOTS[0]), c.get("enc", "7bit")) in set(shell_roots()):
+                    yield c
+        return
     if case.get("cform", "plain") != "plain":
         c = dict(case)
         c.pop("cform")
@@ -631,6 +693,13 @@ def embeds(small, big):
         return all(a["kind"] == b["kind"] and _sub(a["seq"], b["seq"]) for a, b in zip(small["k"], big["k"]))
     if small.get("fam") == "eof":
         if small["open"] != big["open"] or small["tail"] not in ("cut", big["tail"]) or small["lay"] not in ("blk", big["lay"]):
+            return False
+        return _sub(small["seq"], big["seq"])
+    if small.get("fam") == "shell":
+        dflt = dict(W.DEFAULT, root=ROOTS[0])
+        if set(small) != set(big) or (small["r"] != big["r"] and small["seq"]):
+            return False
+        if any(small[d] not in (dflt[d], big[d]) for d in dflt if d in small):
             return False
         return _sub(small["seq"], big["seq"])
     if small.get("fam") == "wrap":
@@ -700,6 +769,26 @@ def cases_wrap(tier):
                 yield dict(cont, fam="wrap", r=r, seq=seq)
 
 
+def cases_shell(tier, fmt):
+    """Family "shell" for one format (html, msgbody, mhtml-tree)."""
+    quick = tier == "quick"
+    if fmt != "mhtml-tree":
+        hi = (3 if quick else 4) if fmt == "html" else (2 if quick else 3)
+        for r in SHELL_R:
+            for seq in _seqs(OMEGA, 0, hi):
+                yield {"fam": "shell", "r": r, "seq": seq}
+        return
+    for cont in W.containers():
+        if cont["enc"] != W.ENCS[0]:
+            continue          # the encoding dimension comes from shell_roots()
+        plain = cont["eol"] == W.DEFAULT["eol"] and cont["hdr"] == W.DEFAULT["hdr"]
+        for root, enc in shell_roots():
+            hi = (1 if quick else 2) + (1 if plain and (root, enc) in SHELL_DEEP else 0)
+            for r in SHELL_R:
+                for seq in _seqs(OMEGA, 0, hi):
+                    yield dict(cont, enc=enc, root=root, fam="shell", r=r, seq=seq)
+
+
 def cases_eof(tier, fmt):
     """Family "eof" for one format."""
     quick = tier == "quick"
@@ -737,6 +826,7 @@ def cases_for(tier, fmt):
     quick = tier == "quick"
     if fmt == "mhtml-tree":
         yield from cases_wrap(tier)
+        yield from cases_shell(tier, fmt)
         return
     if fmt == "epubseq":
         for r in REMOVABLE:
@@ -789,6 +879,8 @@ def cases_for(tier, fmt):
     if not (quick and fmt == "msgfrag"):
         yield from cases_eof(tier, fmt)
     yield from cases_cm(tier, fmt)
+    if fmt in ("html", "msgbody"):
+        yield from cases_shell(tier, fmt)
 
 
 def _part(arg):
@@ -840,6 +932,12 @@ def run(ctx):
             probs = W.validate(W.mhtml_tree(probe, **cont), probe)
             if probs:
                 herr.append(f"c17_wrap writer: container {cont} with <{r}>: {probs}")
+    probe = render_shell({"r": "cm", "seq": ["\n", "<html>", "\n", "</body>", "\n", "</html>", "\n"], "root": ROOTS[-1]}, tk)[0]
+    for cont in W.containers():
+        for root in ROOTS:
+            probs = W.validate(W.mhtml_tree(probe, root=root, **cont), probe, root)
+            if probs:
+                herr.append(f"c17_wrap writer: container {cont} with root type {root}: {probs}")
     for (st, r, _), a in zip(res, args):
         if st != "done":
             herr.append(f"partition {a} failed: {st}: {str(r)[-600:]}")
@@ -861,7 +959,9 @@ def run(ctx):
                    "of length <= 1 and those with a comment symbol up to Lc; cm: every pair of removable constructs (comment / "
                    "markup declaration / raw-text element) with contents over the 12-symbol comment alphabet around visible "
                    "text, x layouts x frames; wrap: every MIME tree (6 shapes x 4 encodings x 2 header orders x 2 line "
-                   "terminators) x 5 removed constructs x line sequences over the 7-symbol line alphabet; eof: every document that ends inside "
+                   "terminators) x 5 removed constructs x line sequences over the 7-symbol line alphabet; shell: 7 removed constructs "
+                   "holding every sequence over the 7-symbol document-shell alphabet (token, newline, <html>, </html>, <body>, "
+                   "</body>, </head>), as html, msgbody and in every MIME tree x 3 media types of the root part; eof: every document that ends inside "
                    "an unterminated removable construct (11 openers x contents over the construct's alphabet x 2 tails x 4 "
                    "layouts); all rendered to real "
                    "markup and parsed by the real extractors; states = (format, case) executed, transitions = parser events "
@@ -879,6 +979,12 @@ def run(ctx):
                       "eof_bounds": "contents of length <= 1 (2) for all layouts x tails, length 2 (3 for html, thorough) for layout "
                                     "blk; quick: html, msgbody, epub (no td layout), mhtml-qp; thorough: also msgfrag, mhtml-7bit, "
                                     "mhtml-b64",
+                      "shell_alphabet": OMEGA, "shell_constructs": SHELL_R, "shell_root_types": ROOTS,
+                      "shell_root_encodings": [list(x) for x in shell_roots()],
+                      "shell_bounds": "html length <= 3 (4), msgbody <= 2 (3); mhtml-tree: length <= 1 (2) for all 240 containers "
+                                      "(6 shapes x 10 (root type, encoding) pairs x 2 header orders x 2 line terminators), one "
+                                      "longer for the 18 containers with CRLF, Content-Type first and (root, encoding) in "
+                                      + str(SHELL_DEEP),
                       "wrap_alphabet": LAMBDA, "wrap_constructs": WRAP_R,
                       "wrap_containers": {"shapes": W.SHAPES, "enc": W.ENCS, "hdr": W.HDRS, "eol": ["CRLF", "LF"]},
                       "wrap_bounds": "sequences of length <= 1 for all 96 containers, length 2 for the 24 with CRLF and "
@@ -892,6 +998,10 @@ def run(ctx):
                             "comments; a raw-text element ends at its first end tag even after an unclosed '<!--'",
                             "MHTML containers hold exactly one text/html part (the root); frames saved as further text/html "
                             "parts are not generated",
+                            "shell: a root part labelled application/xhtml+xml is only generated with the identity transfer "
+                            "encodings (7bit / no header): whether the library decodes base64 / quoted-printable roots of other "
+                            "media types is a question of container support, independent of removed markup (with base64 it "
+                            "extracts nothing at all), not of this property",
                             "eof: a comment / declaration / processing instruction / raw-text or removable element that is still "
                             "open at the end of input extends to the end of input (HTML standard: eof-in-comment etc.); its content "
                             "and its opening delimiter are not visible text; declaration contents are restricted to those without "
